@@ -101,7 +101,7 @@ macro_rules! path_harness {
         #[cfg(kani)]
         #[kani::proof]
         #[kani::unwind($unw)]
-        fn $name() {
+        pub fn $name() {
             let steps: [Step; $n] = core::array::from_fn(|_| any_step());
             let p0 = ValuePointerRef::Origin;
             path_harness!(@go $n, p0, steps, 0, $body);
